@@ -94,6 +94,7 @@ func runC19(p *eng.Prog, r *eng.Report, tier string) {
 			}
 		}
 		c09IndexID(c, "C19.1", f, "payload package")
+		nilLocation(c, "C19.1", f)
 		c09IterCurrent19(c, f)
 		c19Base64(c, f)
 		c19DecodedCount(c, f)
@@ -225,6 +226,7 @@ func runC19(p *eng.Prog, r *eng.Report, tier string) {
 	c.r.Floor("C19.11", "decoders replayed as payloads", nrep, 1)
 	nloop := decoderLoopConsumes(c, "C19.10", inC19)
 	c.r.Note("C19.10: %d start-element edges in token loops examined", nloop)
+	noManualEscaping(c, "C19.35", inC19)
 	c.r.Floor("C19.34", "start-element edges in the token loops of the payload decoders", decoderLoopVisitsEveryChild(c, "C19.34", inC19), 1)
 	ntag := tagNamespaceAgreement(c, "C19.3", inC19)
 	c.r.Note("C19.3: %d decoder tags with an encoder counterpart examined", ntag)
@@ -566,4 +568,30 @@ func unreachableBelief(c *cx, id string, f *eng.Fn, panicCall *ast.CallExpr) boo
 		c.r.Check(id, f, "panic on an error of "+callee.Short, "stated belief: a panic accepted as unreachable guards a call that never fails: every return of the callee yields a nil error", panicCall.Pos(), bad == "", bad)
 	}
 	return found
+}
+
+// noManualEscaping (C19.35 / C13.22): payloads are written as tokens and the
+// XML encoder escapes character data and attribute values when it writes
+// them. Text that was already passed through xml.EscapeText / xml.Escape /
+// html.EscapeString and is then put into a token goes out escaped twice
+// ("Tom &amp;amp; Jerry") while the struct-tag path of the same type writes it
+// once: the two encoders disagree and the streamed form does not decode to
+// the value. Who-may-call: none of the escaping helpers is called in the
+// token-producing packages (the raw stream header writer in internal/stream is
+// the one place that has to escape by hand, C12.1).
+func noManualEscaping(c *cx, id string, in func(f *eng.Fn) bool) {
+	n := 0
+	for _, f := range c.allFns() {
+		if !in(f) {
+			continue
+		}
+		n++
+		for _, cl := range f.AllCalls() {
+			switch cid := f.CalleeID(cl); cid {
+			case "encoding/xml.EscapeText", "encoding/xml.Escape", "html.EscapeString", "text/template.HTMLEscapeString", "text/template.HTMLEscape":
+				c.r.Check(id, f, "call of "+cid, "C: text that goes into an XML token is not escaped by hand (the encoder escapes it)", cl.Pos(), false, "the escaped text is escaped again when the token is written")
+			}
+		}
+	}
+	c.r.Floor(id, "functions scanned for manual escaping", n, 50)
 }
